@@ -126,6 +126,11 @@ func ReadFromSRT(i io.Reader) (o *Subtitles, err error) {
 			}
 		}
 	}
+
+	// Remove trailing empty lines of the last subtitle
+	for len(s.Lines) > 0 && s.Lines[len(s.Lines)-1].String() == "" {
+		s.Lines = s.Lines[:len(s.Lines)-1]
+	}
 	return
 }
 
